@@ -215,6 +215,9 @@ def gen_scenario(rng, knobs=None):
                 senders.add(key)
                 budget[0] -= 1
                 acts.append(["send", rng.randrange(ne), 100 + budget[0]])
+            if K.get("cb_writes") and rng.random() < K["cb_writes"] and may_raise(key):
+                # the callback assigns the state itself through the low-level API (before, between or after its sends)
+                acts.insert(rng.randint(0, len(acts)), ["write", rng.randrange(n)])
             if rng.random() < K["raises"] * (3 if group == "val" else 1) and may_raise(key):
                 raisers.add(key)
                 acts.append(["raise", rng.randint(1, 9)])
@@ -229,6 +232,19 @@ def gen_scenario(rng, knobs=None):
         scripts = [script_for(key, group) for _ in range(nscripts)]
         dflt = {"a": [], "r": ret_for(group)}
         tbl.append([p, nm[0], nm[1], scripts, dflt])
+
+    # sometimes a before / on callback of an internal transition assigns another state through the low-level
+    # API: the engine's own assignment after `on` must win (the `after` callbacks see the target)
+    if K.get("cb_writes") and n > 1:
+        for t in trans:
+            if not t.get("int") or rng.random() >= 4 * K["cb_writes"]:
+                continue
+            names = {tuple(nm) for nm in t["on"] + t["before"]}
+            rows = [row for row in tbl if (row[1], row[2]) in names and row[3] and may_raise((row[0], (row[1], row[2])))
+                    and not any(a_[0] == "write" for a_ in row[3][0]["a"])]
+            if rows:
+                row = rng.choice(rows)
+                row[3][0]["a"].insert(0, ["write", rng.choice([x for x in range(n) if x != t["t"]])])
 
     # options and history
     start = rng.randrange(n) if rng.random() < K["start"] else None
@@ -388,7 +404,9 @@ def gen_scenario(rng, knobs=None):
     # some coroutine callbacks (never all of them: the engine is chosen from coroutine *functions*) are
     # plain functions that return the coroutine
     wrapped_coros = []
-    if len(acoro) >= 2 and rng.random() < K.get("wrapped_coros", 0.0):
+    # (the first coroutine function must really be registered: a user name always is, a convention name may
+    # belong to an event / state nothing uses)
+    if len(acoro) >= 2 and acoro[0][1] == 0 and rng.random() < K.get("wrapped_coros", 0.0):
         cand = [list(x) for x in acoro[1:]]
         wrapped_coros = [x for x in cand if rng.random() < 0.5]
     # a couple of names provided by the model / listeners only are also ids of states
@@ -423,7 +441,7 @@ def gen_scenario(rng, knobs=None):
                for _ in range(rng.randint(1, 2))] if rng.random() < K.get("decoys", 0.0) else [])
     inst_l = rng.random() < K.get("inst_listeners", 0.0)
     # exceptions of callbacks that derive from classes Python / asyncio give a meaning to
-    exc_classes = (rng.sample(["runtime", "attr", "key", "type", "notimpl", "falsy", "falsy"], rng.randint(1, 3))
+    exc_classes = (rng.sample(["runtime", "attr", "key", "type", "notimpl", "falsy", "falsy", "index", "index"], rng.randint(1, 3))
                    if rng.random() < K.get("exc_classes", 0.0) else [])
     # attribute guards that are properties (their value may change from read to read, a read may raise)
     prop_guards = False
@@ -476,7 +494,20 @@ def gen_scenario(rng, knobs=None):
         for t in trans:
             t["ev"] = t["ev"] + [extend_event]
         ops = [(["send", extend_event, op[2]] if (op[0] == "send" and rng.random() < 0.4) else op) for op in ops]
-    return {"extend_event": extend_event, "falsy_listeners": falsy_listeners, "bound_refs": bool(callable_names) and rng.random() < K.get("bound_refs", 0.0), "eqgroups": eqgroups, "alias_inherit": alias_inherit, "exc_classes": exc_classes, "prop_guards": prop_guards, "inst_hooks": inst_hooks, "twin_decoy": twin_decoy,
+    # the allow_event_without_transition option set through the public attribute right after construction (only
+    # when the constructor itself processes no event sent by a callback: enter callbacks of the start state)
+    late_allow = False
+    if rng.random() < K.get("late_allow", 0.0) and not hosted and not decoys:
+        s0_ = start if start is not None else initial
+        enter_names = {tuple(nm) for nm in states[s0_]["enter"]} | {(7, 0), (9, s0_)}
+        if field0 is not None:
+            enter_names = set()
+        late_allow = not any((row[1], row[2]) in enter_names and any(a_[0] == "send" for sc_ in row[3] for a_ in sc_["a"])
+                             for row in tbl)
+    if acoro and rng.random() < K.get("explicit_activate", 0.0) and ops and ops[0] == ["construct"]:
+        ops = [ops[0], ["activate"]] + ops[1:]         # the async machine is activated explicitly, first thing
+    base_first = extend_event is not None and not acoro and rng.random() < 0.6
+    return {"base_first": base_first, "positional_ctor": rng.random() < K.get("positional_ctor", 0.0), "late_allow": late_allow, "extend_event": extend_event, "falsy_listeners": falsy_listeners, "bound_refs": bool(callable_names) and rng.random() < K.get("bound_refs", 0.0), "eqgroups": eqgroups, "alias_inherit": alias_inherit, "exc_classes": exc_classes, "prop_guards": prop_guards, "inst_hooks": inst_hooks, "twin_decoy": twin_decoy,
             "sig_attr": rng.random() < K.get("sig_attr", 0.0), "lstyles": lstyles, "recording_model": rng.random() < K.get("recording_model", 0.0),
             "user_tna": rng.random() < K.get("user_tna", 0.0), "wrapped_coros": wrapped_coros, "base_exc": rng.random() < K.get("base_exc", 0.0), "stop_iter": rng.random() < K.get("stop_iter", 0.0), "any_group": any_group, "hosted": hosted, "callable_names": callable_names, "state_decor": state_decor, "decor": decor,
             "evstyle": style, "mixed": mixed, "values": values, "async": acoro, "falsy_machine": rng.random() < K["falsy_machine"], "n": n, "initial": initial, "finals": finals, "ne": ne, "trans": trans, "states": states,
